@@ -215,6 +215,26 @@ def main(tier, seed):
         else:
             # nothing refers to the inserted types: whether the module is accepted cannot depend on them
             out["viol"].append(("unrelated-type insertion changes acceptance: %s" % kind, "-", e[-300:], s))
+        # (1b) repeat runs when one language-scoped shared setting is given in both of its spellings (kebab-case in the file, as the book
+        # writes it, and on the command line): whichever of them the tool honours, it must be the same in every process (seed C14-j: both
+        # spellings stored side by side in a hash map and applied in iteration order)
+        if b in ("kotlin", "nanobind") and i % 2 == 0:
+            srcm, cm = emit(prog, d, "mixed", cfg + ("" if "[%s]" % b in cfg else "\n[%s]\n" % b) + "lib-name = \"filelib\"\nunsafe-references-in-callbacks = true\n")
+            first = None
+            for r_ in range(6 if thorough else 5):
+                rc, o, e = toolrun.run_tool(b, srcm, os.path.join(d, "mixed", "out%d" % r_), config_file=cm,
+                                            configs=["%s.lib-name=clilib" % b, "%s.unsafe-references-in-callbacks=false" % b, "%s.lib_name=snakelib" % b][: 2 + (i // 2) % 2])
+                out["runs"] += 1
+                k_, det = toolrun.classify_tool(rc, e)
+                snap = (k_, tooltier.snapshot(os.path.join(d, "mixed", "out%d" % r_)) if k_ == "ok" else None)
+                if first is None:
+                    first = snap
+                    if k_ != "ok":
+                        break          # nothing to compare (the program itself is not accepted under this configuration)
+                elif snap != first:
+                    out["viol"].append(("repeat-run with one scoped setting in both spellings: outcome differs between processes (%s / %s, %d vs %d files)" % (
+                        first[0], snap[0], len(first[1] or {}), len(snap[1] or {})), "-", "differs", srcm))
+                    break
         # (4) code outside bridge modules (incl. a same-named type in a non-bridge module) has no influence
         p4 = copy.deepcopy(prog)
         dup = [t.name for t in prog.types()][0]
